@@ -52,7 +52,7 @@ def _m1():
         ('pres+', 's1', 0),
         ('state', 's0', 'frozen', -1), ('state', 's0', 'frozen', 0),
         ('state', 's0', 'up', -1), ('state', 's1', 'down', -1),
-        ('bl', 1), ('bl', 0),
+        ('bl', 1), ('bl', 0), ('bl', 2), ('bl', 3),
         ('tick', 10), ('tick', 25), ('tick', 40), ('noop',), ('restart',),
     )
     return cfg
@@ -73,7 +73,7 @@ def _m5():
         ('app+', 'sm'),
         ('pres-', 's0'), ('pres+', 's0', 0),
         ('state', 's0', 'frozen', 0), ('state', 's1', 'frozen', -1),
-        ('state', 's0', 'up', -1), ('bl', 1), ('bl', 0),
+        ('state', 's0', 'up', -1), ('bl', 1), ('bl', 0), ('bl', 2),
         ('tick', 10), ('tick', 25), ('tick', 40), ('noop',), ('restart',),
     )
     return cfg
